@@ -285,3 +285,4 @@ package component_definition
 //@ property C09
 //@ requires [property-built] n != nil && n.Configurations != nil
 //@ assigns mapcontents(n.Configurations)
+//@ ensures [recorded] in(path, n.Configurations) && n.Configurations[path] == configValue
